@@ -1,4 +1,5 @@
 import PK.Properties.C13
+import PK.Properties.C13Table
 open PK
 #print axioms C13_position_opener
 #print axioms C13_posts_do_not_count
@@ -12,3 +13,11 @@ open PK
 #print axioms C13_first_actor
 #print axioms pickBy_spec
 #print axioms argmaxKey_range
+#print axioms PK.lowOpening_table_ok
+#print axioms PK.highOpening_table_ok
+#print axioms PK.up_sig
+#print axioms PK.entry_of_check
+#print axioms PK.C13_opening_table
+#print axioms PK.C13_opening_same_size
+#print axioms PK.C13_low_hand_rules
+#print axioms PK.C13_high_hand_rules
